@@ -78,6 +78,11 @@ CHECKS.update({
          'The N<=4, r<=3 loss-matrix space is enumerated completely in the thorough tier; larger objects and random loss patterns are sampled.',
          'Trusts the expected-yield model in pbt/checks/c19_segment_fetch.py; responses immediate, losses = silence.', '6/C19'),
 })
+CHECKS.update({
+ 'C17': ('Exhaustive reply x op x front-end x latency grid + Hypothesis-generated batches of concurrent register/unregister calls against a scripted forwarder on the virtual loop, routes declared before two consecutive connections, and ControlResponse round trips; oracles: strict decoding of the command Interest in each front-end format (digest, parameters digest, timestamp order, no overlap), True iff status 200, no exception',
+         'The reply/op/front-end grid is enumerated completely; concurrency, prefixes and response values are sampled.',
+         'Trusts the strict Interest reader and the scripted forwarder in pbt/checks/c17_registration.py.', '6/C17'),
+})
 NOT_YET = {}
 def main():
     props = [json.loads(l) for l in open(os.path.join(ROOT, 'properties.jsonl'))]
